@@ -29,6 +29,13 @@ type Opts struct {
 	// transaction (one operation each): transactions far larger than any internal buffer or
 	// batch threshold must still be atomic, isolated and readable from inside.
 	Bulk int `json:"bulk"`
+	// Variant selects another bucket/key domain for a separate pass:
+	//  "deep":     a chain of nested buckets down to depth 12 (two-digit depth prefixes of the key
+	//              encoding), create/delete/put at depths 10..12 below a committed chain of depth 9;
+	//  "encoding": keys and bucket names made of digits, separators and the bucket-index prefix,
+	//              i.e. byte strings that look like the backend's own encoded keys;
+	//  "reader":   a read transaction that stays open across commits of write transactions.
+	Variant string `json:"variant"`
 }
 
 type Model struct {
@@ -37,6 +44,7 @@ type Model struct {
 }
 
 func New(o Opts) *Model {
+	setVariant(o.Variant)
 	if o.MaxTx == 0 {
 		o.MaxTx = 2
 	}
@@ -99,13 +107,78 @@ var (
 	prefs   = []string{"", "a", "a_", "\xff", "b", "a\xff"}
 )
 
+var (
+	nestOps    = []string{"x/s"}                    // nested buckets created/deleted by nb/db
+	topOps     = []string{"xx"}                     // top-level buckets created by ct
+	extraPaths = []string{"z", "x/t", "xx/s", "y"}  // never-created buckets that are probed
+	extraKeys  = []string{"zz", "a_", "s"}          // never-written keys that are probed
+	setupOps   []string                             // committed before the explored history
+	readerOps  bool
+	updateOps  = []string{"U:x:a:1", "U:x:a:2", "Uerr:x:a:2", "Uerr:x:b:1"}
+)
+
+func chainPath(depth int) string {
+	p := "x"
+	for k := 2; k <= depth; k++ {
+		p += fmt.Sprintf("/n%d", k)
+	}
+	return p
+}
+
+// setVariant installs the bucket/key domain of a pass (one model configuration per worker process).
+func setVariant(v string) {
+	switch v {
+	case "deep":
+		buckets = []string{"x", chainPath(9), chainPath(10), chainPath(11), chainPath(12)}
+		keys = []string{"a", "b"}
+		vals = []string{"1"}
+		prefs = []string{"", "a"}
+		nestOps = []string{chainPath(10), chainPath(11), chainPath(12)}
+		topOps = nil
+		extraPaths = []string{chainPath(9) + "/q", chainPath(11) + "/q", "y"}
+		setupOps = []string{"bw"}
+		for k := 2; k <= 9; k++ {
+			setupOps = append(setupOps, "nb:"+chainPath(k))
+		}
+		setupOps = append(setupOps, "put:"+chainPath(9)+":61:1", "cm")
+		updateOps = nil
+	case "encoding":
+		buckets = []string{"x", "x/s", "1", "x/2"}
+		keys = []string{"1_x_a", "2_x_s_a", "b_2_x_s", "a"}
+		vals = []string{"1", "2"}
+		prefs = []string{"", "1_", "2_x_s", "b_", "a"}
+		nestOps = []string{"x/s", "x/2"}
+		topOps = []string{"1"}
+		extraPaths = []string{"2", "x/1", "1/x", "b"}
+		extraKeys = []string{"x_a", "s_a", "2_x_s", "1_x"}
+		updateOps = []string{"U:x:1_x_a:1", "Uerr:x:2_x_s_a:2"}
+	case "reader":
+		buckets = []string{"x", "x/s"}
+		keys = []string{"a", "b"}
+		vals = []string{"1", "2"}
+		prefs = []string{"", "a"}
+		topOps = nil
+		readerOps = true
+		updateOps = []string{"U:x:a:1"}
+	}
+}
+
 // Alphabet of mutations.
 func alphabet(o Opts) []string {
 	if o.Bulk > 0 {
 		return []string{"bw", "cm", "rb", "ro", "nb:x/s", fmt.Sprintf("bulk:x:%d", o.Bulk), fmt.Sprintf("bulkdel:x:%d", o.Bulk), fmt.Sprintf("bulk:x/s:%d", o.Bulk),
 			"put:x:61:1", "del:x:61", "clr:x", "Uerr:x:a:2"}
 	}
-	a := []string{"bw", "cm", "rb", "ro", "ct:xx", "nb:x/s", "db:x/s"}
+	a := []string{"bw", "cm", "rb", "ro"}
+	if readerOps {
+		a = append(a, "br", "er")
+	}
+	for _, t := range topOps {
+		a = append(a, "ct:"+t)
+	}
+	for _, n := range nestOps {
+		a = append(a, "nb:"+n, "db:"+n)
+	}
 	for _, b := range buckets {
 		for _, k := range keys {
 			for _, v := range vals {
@@ -116,7 +189,7 @@ func alphabet(o Opts) []string {
 		a = append(a, "clr:"+b, fmt.Sprintf("put:%s:%s:", b, hex.EncodeToString([]byte("a"))), fmt.Sprintf("put:%s::1", b))
 	}
 	// one-shot transactions through db.Update: commit, and closure error (must leave no trace)
-	a = append(a, "U:x:a:1", "U:x:a:2", "Uerr:x:a:2", "Uerr:x:b:1")
+	a = append(a, updateOps...)
 	return a
 }
 
@@ -134,6 +207,10 @@ type sut struct {
 	viol  []string
 	tags  map[string]bool
 	note  map[string]int
+	// a read transaction kept open across later commits ("reader" variant): rcands are the
+	// committed states since it began - what it shows must be exactly ONE of them
+	rtx    mwdb.ReadTransaction
+	rcands []*rdb
 }
 
 func (s *sut) fail(tag, f string, a ...interface{}) {
@@ -197,7 +274,7 @@ func (s *sut) observe(tx mwdb.ReadTransaction, d *rdb, where string, iter bool) 
 			s.fail("listing", "%s: top-level BucketNames=%v want %v", where, got, want)
 		}
 	}
-	for _, path := range append(append([]string{}, buckets...), "z", "x/t", "xx/s", "y") {
+	for _, path := range append(append([]string{}, buckets...), extraPaths...) {
 		rbk := d.lookup(path)
 		ib := implBucket(tx, path)
 		if rbk == nil {
@@ -210,7 +287,7 @@ func (s *sut) observe(tx mwdb.ReadTransaction, d *rdb, where string, iter bool) 
 			s.fail("bucket-missing", "%s: bucket %q exists but cannot be opened", where, path)
 			continue
 		}
-		for _, k := range append(append([]string{}, keys...), "zz", "a_", "s") {
+		for _, k := range append(append([]string{}, keys...), extraKeys...) {
 			v, err := ib.Get([]byte(k))
 			want, ok := rbk.KV[k]
 			if err != nil {
@@ -346,6 +423,12 @@ func (s *sut) observe(tx mwdb.ReadTransaction, d *rdb, where string, iter bool) 
 	}
 }
 
+// splitParent splits a bucket path into (parent path, last name).
+func splitParent(path string) [2]string {
+	i := strings.LastIndex(path, "/")
+	return [2]string{path[:i], path[i+1:]}
+}
+
 func hx(s string) string { b, _ := hex.DecodeString(s); return string(b) }
 
 // apply executes one mutation on both systems. enabled=false: not applicable here.
@@ -363,6 +446,25 @@ func (s *sut) apply(op string, o Opts) (enabled bool, err error) {
 		s.wtx, s.ovl, s.dirty, s.nops = tx, s.ref.clone(), map[string]bool{}, 0
 		s.ntx++
 		return true, nil
+	case "br":
+		if s.rtx != nil {
+			return false, nil
+		}
+		rt, err := s.db.BeginReadTx()
+		if err != nil {
+			return true, err
+		}
+		s.rtx, s.rcands = rt, []*rdb{s.ref.clone()}
+		return true, nil
+	case "er":
+		if s.rtx == nil {
+			return false, nil
+		}
+		if err := s.rtx.Rollback(); err != nil {
+			s.fail("rollback", "read transaction Rollback error %v", err)
+		}
+		s.rtx, s.rcands = nil, nil
+		return true, nil
 	case "cm", "rb":
 		if s.wtx == nil {
 			return false, nil
@@ -372,13 +474,16 @@ func (s *sut) apply(op string, o Opts) (enabled bool, err error) {
 				s.fail("commit", "Commit error %v", err)
 			}
 			s.ref = s.ovl
+			if s.rtx != nil {
+				s.rcands = append(s.rcands, s.ref.clone())
+			}
 		} else if err := s.wtx.Rollback(); err != nil {
 			s.fail("rollback", "Rollback error %v", err)
 		}
 		s.wtx, s.ovl, s.dirty = nil, nil, nil
 		return true, nil
 	case "ro":
-		if s.wtx != nil || s.ntx == 0 {
+		if s.wtx != nil || s.ntx == 0 || s.rtx != nil {
 			return false, nil
 		}
 		if err := s.db.Close(); err != nil {
@@ -409,6 +514,9 @@ func (s *sut) apply(op string, o Opts) (enabled bool, err error) {
 				s.fail("update", "db.Update(put) failed: %v", err)
 			} else {
 				s.ref.lookup(p[1]).KV[p[2]] = p[3]
+				if s.rtx != nil {
+					s.rcands = append(s.rcands, s.ref.clone())
+				}
 			}
 		} else if err != sentinel {
 			s.fail("update", "db.Update returned %v instead of the closure's error", err)
@@ -437,7 +545,7 @@ func (s *sut) apply(op string, o Opts) (enabled bool, err error) {
 		}
 		s.ovl.Top[p[1]] = newRB()
 	case "nb":
-		pp := strings.Split(p[1], "/")
+		pp := splitParent(p[1])
 		parent := s.ovl.lookup(pp[0])
 		ib := implBucket(s.wtx, pp[0])
 		if parent == nil || ib == nil {
@@ -456,7 +564,7 @@ func (s *sut) apply(op string, o Opts) (enabled bool, err error) {
 		}
 		parent.Subs[pp[1]] = newRB()
 	case "db":
-		pp := strings.Split(p[1], "/")
+		pp := splitParent(p[1])
 		parent := s.ovl.lookup(pp[0])
 		ib := implBucket(s.wtx, pp[0])
 		if parent == nil || ib == nil {
@@ -558,6 +666,9 @@ func (m *Model) Run(hist []string) *proto.Result {
 	}
 	s.ntx = 0
 	defer func() {
+		if s.rtx != nil {
+			s.rtx.Rollback()
+		}
 		if s.wtx != nil {
 			s.wtx.Rollback()
 		}
@@ -591,6 +702,15 @@ func (m *Model) Run(hist []string) *proto.Result {
 		return nil
 	})
 	s.ovl = ovl0
+	// variant setup: committed before the explored history (not counted in the budgets)
+	for _, op := range setupOps {
+		ok, err := s.apply(op, Opts{MaxTx: 1 << 20, MaxOps: 1 << 20})
+		if err != nil || !ok {
+			r.Err = fmt.Sprintf("variant setup %s: enabled=%v err=%v", op, ok, err)
+			return r
+		}
+	}
+	s.ntx, s.nops = 0, 0
 	stop := len(s.viol) > 0
 	for i, op := range hist {
 		if stop {
@@ -625,6 +745,34 @@ func (m *Model) Run(hist []string) *proto.Result {
 	if err != nil {
 		s.fail("view", "db.View error %v", err)
 	}
+	if s.rtx != nil {
+		// the open read transaction must show exactly one committed state between its begin
+		// and now (C11: a commit becomes visible all together): every candidate is compared
+		// completely; it is a violation if none matches
+		saveV, saveT := s.viol, s.tags
+		matched := -1
+		var first []string
+		for ci, cand := range s.rcands {
+			s.viol, s.tags = nil, map[string]bool{}
+			s.observe(s.rtx, cand, fmt.Sprintf("read transaction opened %d commit(s) ago", len(s.rcands)-1), true)
+			if len(s.viol) == 0 {
+				matched = ci
+				break
+			}
+			if ci == 0 {
+				first = s.viol
+			}
+		}
+		s.viol, s.tags = saveV, saveT
+		if matched < 0 {
+			s.fail("reader-mixes-commits", "a read transaction that stayed open across %d commit(s) shows none of the %d committed states completely (differences from the state at its begin follow)", len(s.rcands)-1, len(s.rcands))
+			for _, v := range first {
+				s.fail("reader-mixes-commits", "%s", v)
+			}
+		} else {
+			s.note[fmt.Sprintf("reader_sees_state_%d_of_%d", matched, len(s.rcands))]++
+		}
+	}
 	r.Viol = s.viol
 	for t := range s.tags {
 		r.KnownTags = append(r.KnownTags, t)
@@ -634,7 +782,7 @@ func (m *Model) Run(hist []string) *proto.Result {
 		r.Info[k] = v
 	}
 	// key
-	kb, _ := json.Marshal(map[string]interface{}{"ref": s.ref, "ovl": s.ovl, "open": s.wtx != nil, "dirty": s.dirty, "ntx": s.ntx, "nops": s.nops})
+	kb, _ := json.Marshal(map[string]interface{}{"ref": s.ref, "ovl": s.ovl, "open": s.wtx != nil, "dirty": s.dirty, "ntx": s.ntx, "nops": s.nops, "reader": s.rcands})
 	h := sha256.Sum256(kb)
 	r.Key = hex.EncodeToString(h[:16])
 	ob, _ := json.Marshal(map[string]interface{}{"ref": s.ref, "ovl": s.ovl})
@@ -662,7 +810,11 @@ func enabledOp(s *sut, op string, o Opts) bool {
 	case "cm", "rb":
 		return s.wtx != nil
 	case "ro":
-		return s.wtx == nil && s.ntx > 0
+		return s.wtx == nil && s.ntx > 0 && s.rtx == nil
+	case "br":
+		return s.rtx == nil
+	case "er":
+		return s.rtx != nil
 	}
 	if s.wtx == nil || s.nops >= o.MaxOps {
 		return false
@@ -671,7 +823,7 @@ func enabledOp(s *sut, op string, o Opts) bool {
 	case "ct":
 		return true
 	case "nb", "db":
-		return s.ovl.lookup(strings.Split(p[1], "/")[0]) != nil
+		return s.ovl.lookup(splitParent(p[1])[0]) != nil
 	default:
 		return s.ovl.lookup(p[1]) != nil
 	}
